@@ -60,8 +60,16 @@ func TracingHandler(handler http.Handler, collector Collector) http.Handler {
 			<-ctx.Done()
 			builder.add(&RequestCanceled{})
 		}()
+		// The server adds the request's trailers to the trailer map of the request
+		// it created, once the body has been read. Clone copies that map, so let
+		// the clone use the original one or the handler would never see them.
+		if req.Trailer == nil {
+			req.Trailer = http.Header{}
+		}
+		trailer := req.Trailer
 		//nolint:contextcheck
 		req = req.Clone(ctx)
+		req.Trailer = trailer
 		req.Body = newRequestReader(req.Header, req.Body, true, builder)
 		traceWriter := &tracingResponseWriter{
 			respWriter: respWriter,
